@@ -657,7 +657,13 @@ Proof.
         pose proof (lookup_rel s bs bs' Hbs) as HL.
         destruct (lookup s bs) as [b|], (lookup s bs') as [b'|]; cbn in HL;
           try contradiction.
-        -- apply IH; assumption.
+        -- unfold bound_match. pose proof HL as [_ Hjb]. apply jperm_shape in Hjb.
+           destruct b as [| | |t| |], b' as [| | |t'| |]; cbn in Hjb; try contradiction;
+             try (apply IH; assumption).
+           subst t'. destruct (is_var t); [|apply IH; assumption].
+           destruct f as [| | |u| |], f' as [| | |u'| |]; cbn in Hjf;
+             try contradiction; cbn; try apply PermR_nil.
+           subst u'. destruct (String.eqb t u); cbn; [exact Hsingle | apply PermR_nil].
         -- cbn. apply PermR_bsw_single. apply bset_rel; assumption.
       * destruct f as [| | |t| |], f' as [| | |t'| |]; cbn in Hjf;
           try contradiction; cbn; try apply PermR_nil.
